@@ -14,6 +14,10 @@ CACHE = os.path.join(ROOT, ".cache", "zoo")
 
 # name -> kwargs of qrules.generate_transitions (formalism added by the caller)
 REACTIONS = {
+    # a massless spin-1/2 state next to a massive spin-1 state (axis-angle alignment: the flag `no_zero_spin` must follow the ROTATED state)
+    "tau_nu_rho": dict(initial_state="tau-", final_state=["nu(tau)", "rho(770)-"], allowed_interaction_types=["weak"]),
+    "tau_nu_rho0_pi": dict(initial_state="tau-", final_state=["nu(tau)", "rho(770)0", "pi-"], allowed_intermediate_particles=["a(1)(1260)-"],
+                           allowed_interaction_types=["weak", "strong"]),
     "jpsi_gamma_pi0_pi0": dict(initial_state=("J/psi(1S)", [-1, +1]), final_state=["gamma", "pi0", "pi0"],
                                allowed_intermediate_particles=["f(0)(980)", "f(0)(1500)"], allowed_interaction_types=["strong", "EM"]),
     "jpsi_pi0_pip_pim": dict(initial_state=("J/psi(1S)", [-1, +1]), final_state=["pi0", "pi+", "pi-"],
